@@ -201,11 +201,6 @@ theorem execAll_sync (s : St) (l : List Step) : (execAll s l).sync = s.sync := b
 theorem recoverSeg_recs (sg : Seg) : (match recoverSeg sg with | some x => x.recs | none => []) = visible sg := by
   unfold recoverSeg visible
   cases sg.inMan <;> cases sg.sstFile <;> cases sg.walFile <;> simp
-  all_goals
-    by_cases h : 0 < sg.durable
-    · simp [h]
-    · have : sg.durable = 0 := by omega
-      simp [this]
 
 theorem allRecs_filterMap_recover : ∀ l : List Seg, allRecs (l.filterMap recoverSeg) = l.flatMap visible
   | [] => rfl
@@ -246,12 +241,10 @@ theorem recoverSeg_ok {sg sg' : Seg} (h : recoverSeg sg = some sg') : SegOK sg' 
     · simp [hs] at h
   · have hm' : sg.inMan = false := by simpa using hm
     simp only [hm', Bool.false_eq_true, if_false] at h
-    by_cases hw : (sg.walFile && decide (0 < sg.durable)) = true
+    by_cases hw : sg.walFile = true
     · simp only [hw, if_true, Option.some.injEq] at h
       subst h
-      have hw' : sg.walFile = true := by
-        cases hwf : sg.walFile <;> simp [hwf] at hw ⊢
-      refine ⟨by simp [List.length_take], fun h' => by simp at h', fun _ => hw'⟩
+      refine ⟨by simp [List.length_take], fun h' => by simp at h', fun _ => rfl⟩
     · simp [hw] at h
 
 theorem segsOK_fresh (n : Nat) : ∀ l : List Seg, (∀ x ∈ l, SegOK x) →
